@@ -19,7 +19,8 @@ RULE = ('cases = (a) exhaustive sweep of every reachable binarised time-mask pat
         'beta elements pruned, g leading gamma elements pruned) of one causal Conv1d, kernel 1..9 x '
         'initial dilation 1..3 (x stride 1..2, x position first/middle/before-flatten/residual in '
         'the thorough tier), binary and real-valued (cumulative-sum crossing) realisations; '
-        '(b) random G-PIT programs (1D/2D, conv/depthwise/linear/BN/ReLU/pool/flatten/add/cat) x '
+        '(c) the repository\'s own unit_test models (TCResNet14, DSCNN, ToyAdd, ...) with random '
+        'channel masks; (b) random G-PIT programs (1D/2D, conv/depthwise/linear/BN/ReLU/pool/flatten/add/cat) x '
         'channel-mask modes (binary, adversarial reals, N(0,1), all-pruned) x random time patterns '
         'x fold_bn on/off.  A case is non-trivial when at least one mask element is pruned AND the '
         'exported network differs from the seed in at least one conv/linear hyper-parameter; '
@@ -66,6 +67,11 @@ def cases(tier, seed):
                    'family': '1d' if i % 2 == 0 else '2d', 'mask_mode': modes[i % len(modes)],
                    'fold': (i // 2) % 2 == 1, 'time_style': 'real' if i % 5 == 0 else 'binary',
                    'seed': seed * 104729 + i})
+    # the repository's own unit_test models, channel masks only
+    for i, name in enumerate(REPO_MODELS * (1 if tier == 'quick' else 8)):
+        cs.append({'kind': 'repo-model', 'model': name, 'fold': i % 2 == 1,
+                   'mask_mode': ['binary', 'adversarial', 'normal'][i % 3],
+                   'seed': seed * 31 + i})
     return cs
 
 
@@ -287,8 +293,79 @@ def run_random(case, ctx, gen_opts=None):
                 'time_patterns': {k: v[0] for k, v in expect.items()}})
 
 
+REPO_MODELS = ['SimpleNN', 'SimpleNN2D', 'SimpleNN2D_NoBN', 'DSCNN', 'ToySequentialConv1d',
+               'ToySequentialFullyConv2d', 'ToySequentialConv2d', 'ToySequentialSeparated',
+               'ToyAdd', 'ToyAdd_2D', 'TCResNet14', 'TutorialModel', 'TutorialModel_NoDW']
+
+
+def build_repo_model(name, seed):
+    """one of the repository's own unit_test models (the shapes the maintainers care about)"""
+    import importlib
+    torch.manual_seed(seed)
+    mod = None
+    for m in ('simple_nn', 'dscnn', 'toy_models', 'tc_resnet_14', 'phd_course_model'):
+        mm = importlib.import_module('unit_test.models.' + m)
+        if hasattr(mm, name):
+            mod = mm
+            break
+    cls = getattr(mod, name)
+    if name == 'TCResNet14':
+        model = cls({"input_channels": 6, "output_size": 12,
+                     "num_channels": [24, 36, 36, 48, 48, 72, 72], "kernel_size": 9, "dropout": 0.5,
+                     "grad_clip": -1, "use_bias": True, "use_dilation": True, "avg_pool": True})
+        shape = (6, 50)
+    else:
+        model = cls()
+        shape = tuple(model.input_shape)
+    g = torch.Generator().manual_seed(seed)
+    with torch.no_grad():
+        for m in model.modules():
+            if isinstance(m, (nn.BatchNorm1d, nn.BatchNorm2d)):
+                m.running_mean.copy_(torch.randn(m.num_features, generator=g) * 0.3)
+                m.running_var.copy_(torch.rand(m.num_features, generator=g) + 0.5)
+    model.eval()
+    return model, shape
+
+
+def run_repo_model(case, ctx):
+    from plinio.methods import PIT
+    model, shape = build_repo_model(case['model'], case['seed'])
+    try:
+        pit = PIT(model, input_shape=shape, fold_bn=case['fold'])
+    except Exception as e:
+        ctx.skip('repo-model ' + case['model'] + ': ' + type(e).__name__ + ': ' + str(e)[:60])
+        return
+    pit.eval()
+    rng = random.Random(case['seed'])
+    assign = pitlib.apply_channel_masks(pit, rng, case['mask_mode'])
+    ctx.cls('repo-model:' + case['model'])
+    try:
+        exported = pit.export()
+    except Exception as e:
+        ctx.violation('export-crash', {'sig': 'repo-model:' + type(e).__name__,
+                                       'exc': repr(e)[:300], 'model': case['model']})
+        return
+    exported.eval()
+    pitlib.sync_exported_bn(pit, exported)
+    changed = check_structure(ctx, pit, exported, None)
+    g = torch.Generator().manual_seed(case['seed'] + 1)
+    x = torch.randn((3,) + tuple(shape), generator=g)
+    with torch.no_grad():
+        y_nas, y_exp = pit(x), exported(x)
+    ctx.mon('c01.output_diff')
+    ok, d = pitlib.close(y_nas, y_exp)
+    if not ok:
+        ctx.violation('output-mismatch', {'sig': 'repo-model:' + case['model'],
+                                          'max_abs_diff': d, 'fold': case['fold'],
+                                          'mask_mode': case['mask_mode']})
+    if changed:
+        ctx.nontriv(('repo-model', case['model'], case['mask_mode'], case['fold'], case['seed']))
+
+
 def run_case(case, ctx):
     if case['kind'] == 'sweep':
         run_sweep(case, ctx)
+    elif case['kind'] == 'repo-model':
+        run_repo_model(case, ctx)
     else:
         run_random(case, ctx)
